@@ -333,6 +333,8 @@ class Particle(Structure):
                     iy = 0.
                 if((ix*ix + iy*iy) > 4.0):
                     raise ValueError("Passed (ix, iy) coordinates are not valid, squared sum exceeds 4.")
+                if not (a > 0.):
+                    raise ValueError("Pal coordinates (h,k,ix,iy) require a positive semi-major axis.")
                 clibrebound.reb_particle_from_pal.restype = Particle
                 p = clibrebound.reb_particle_from_pal(c_double(simulation.G), primary, c_double(self.m), c_double(a), c_double(l), c_double(k), c_double(h), c_double(ix), c_double(iy))
             else:
